@@ -59,7 +59,7 @@ def _xhj_gc_commands_to_rmfiles(hsize, files):
 
 def _xhj_gc_files_to_rmfiles(hsize, files):
     """Return the number and list of history files to remove to get under the file limit."""
-    rmfiles = files[:-hsize] if len(files) > hsize else []
+    rmfiles = files[: len(files) - hsize] if len(files) > hsize else []
     return len(rmfiles), rmfiles
 
 
